@@ -218,6 +218,8 @@ func mkLoop(id string, a []string, env0 *loopInst) *loopInst {
 	// the instance's cleaner only runs when the harness says so (loop.clean); with both
 	// intervals zero its decisions depend on the order of times only
 	c.Storage.Cleanup = config.Cleanup{Enabled: true, Interval: time.Hour}
+	// the forced periodic snapshot never becomes due by itself; loop.overdue makes it due
+	c.StorageForceSnapshotInterval = time.Hour
 	c.StorageRetryCount = int(u64(a[6]))
 	c.StoragePollInterval = time.Hour // the harness triggers listings itself
 	c.LMDBPollInterval = 50 * time.Microsecond
@@ -395,6 +397,16 @@ func init() {
 			if err == nil && fmt.Sprint(realToSym(uint64(ni.Timestamp.UnixNano()))) == a[1] {
 				_ = fleetStore.Delete(context.Background(), n)
 			}
+		}
+		return "ok"
+	}
+	// loop.overdue <id>: the last snapshot of the instance is suddenly older than the force interval
+	// (only while the loop is at its top or asleep: the flag is computed right after the loads)
+	implOps["loop.overdue"] = func(a []string) string {
+		l := loops[a[0]]
+		if l.started && !l.exited && (l.at == "loop.top" || l.at == "loop.sleep") {
+			l.s.VerifSetLastSnapshotTime(time.Now().Add(-2 * time.Hour))
+			trackOf(l.id).forced = true
 		}
 		return "ok"
 	}
@@ -611,9 +623,10 @@ func init() {
 				l.earlyUpload = true
 			}
 			t.stores++
-			if !t.coveredBySend && !t.startupStore {
+			if !t.coveredBySend && !t.startupStore && !t.forced {
 				l.echo = true
 			}
+			t.forced = false
 			t.coveredBySend = false
 			t.startupStore = false
 		}
